@@ -342,7 +342,9 @@ def run(ctx):
             ctx.add('Y.passmod.genpasswd', '[0]', loc(B.root), ok, 'genPasswd is not the UTF-8 content of child 0 required to be [0] context primitive (RFC 3062)')
         else:
             # the path on which the sequence is empty (Y.optional-absent demands that there is one): nothing was generated
-            ctx.add('Y.passmod.genpasswd', 'absent', loc(B.root), g in (('ctor', 'None', ()), ('lit', '')),
+            # "nothing": None, the empty string literal, or the text of an empty byte vector (String::from_utf8(vec![]) is Ok(""))
+            empty_text = g[0] == 'variant' and g[2] == 'Ok' and g[1][0] == 'call' and g[1][1].endswith('::from_utf8') and g[1][2] and g[1][2][0] in (('vec', ()), ('lit', b''))
+            ctx.add('Y.passmod.genpasswd', 'absent', loc(B.root), g in (('ctor', 'None', ()), ('lit', '')) or empty_text,
                     'an empty PasswdModifyResponseValue does not decode to "no generated password": %s' % absx.fmt(g)[:80])
     ctx.floor('Y', 'PasswordModifyResp paths', len(outs), 1)
     for path, field in (('<ldap3::exop_impl::whoami::WhoAmIResp as ldap3::exop_impl::ExopParser>::parse', 'authzid'),
